@@ -265,4 +265,5 @@ def run(ctx):
     _run_rules(ctx)
     from .. import boundaries
     boundaries.check(ctx, 'C01.RB', 'C01')
+    boundaries.check_guards(ctx, 'C01.RG', 'C01')
     boundaries.check_calls(ctx, 'C01.RC', 'C01')
